@@ -13,7 +13,7 @@ rsync -a --delete --exclude target /verif/engine/ $ME/engine/
 sed -i "s#path = \"/repo\"#path = \"$WT\"#" $ME/engine/Cargo.toml
 for d in golden corpus known_findings.json c16_stubs.json; do rm -rf $ME/out/$d; cp -r /verif/$d $ME/out/$d 2>/dev/null; done
 export CARGO_NET_OFFLINE=true VCHECK_VERIF_DIR=$ME/out
-for m in $(ls -d $DIR/m[0-9]* 2>/dev/null | sort); do
+for m in $(ls -d $DIR/m[0-9]*/ 2>/dev/null | sort); do m=${m%/}
   k=$(basename $m); log=$m/eval.log; : > $log
   git -C $WT checkout -q -- . ; rm -f $WT/examples/demo_*.rs
   feat=""; grep -q "rand::" $m/demo.rs && feat="--features rand"
